@@ -12,7 +12,7 @@ CONSTANTS
   MaxInstr = 2
   MaxTx = 3
   SupplyCap = 8
-  DataVals = {1}
+  DataVals = {7}
   InitLedgers <- InitN0a
   FailOdds = 4
   EndOdds = 3
